@@ -263,6 +263,19 @@ def run(case):
                     got = arm.mem[desc, size]
                 else:
                     arm.mem[desc, size] = op['value']
+                if idx % 3 == 0:
+                    # the caller's descriptor is an input: used again, unchanged, it must name the same bytes
+                    again = arm.mem[desc, size]
+                    first = got if op['op'] == 'r' else None
+                    i0 = model.find(addr)
+                    inside = i0 is not None and (addr - model.devs[i0][0]) + size <= len(model.devs[i0][2])
+                    want2 = first if first is not None else ((op['value'] & ((1 << (8 * size)) - 1)) if inside else None)
+                    if i0 is None:
+                        want2 = 0
+                    if (inside or i0 is None) and want2 is not None and again != want2:
+                        viol.append({'oracle': 'hub.model', 'site': 'hub:reuse', 'cls': 'descriptor_reuse_differs', 'tick': idx,
+                                     'detail': 'second access through the same descriptor object at %#x size %d returned %#x, expected %#x' % (addr, size, again, want2)})
+                        break
             elif path == 'mem_a':
                 if op['op'] == 'r':
                     got = arm.mem_a_get(addr, size)
